@@ -413,6 +413,7 @@ type Session struct {
 	CanaryHits     int // canaries that landed exactly on a just-released descriptor number
 	UserFds        []UserFd
 	PolledChecks   int
+	AfterStopPokes int
 }
 
 // UserFd is a descriptor handed to the user (Dup / DupListener).
@@ -659,6 +660,30 @@ func Run(cs Case, hooks Hooks) *Session {
 		}
 		for _, p := range e.Logger.Panics() {
 			s.addFail("VERIF-KEY:panic-logged " + p)
+		}
+		if hooks.Canaries && !hooks.NoStop {
+			// the engine is gone: the numbers of its epoll and eventfd descriptors are free again. Canaries
+			// take them, then requests are made on the connection handles the application still holds.
+			var extra []*Canary
+			for i := 0; i < 12; i++ {
+				if cn, err := newCanary("after the engine stopped"); err == nil {
+					extra = append(extra, cn)
+				}
+			}
+			for _, c := range s.Conns {
+				if c.GC != nil {
+					_ = c.GC.Wake(nil)
+					_ = c.GC.AsyncWrite([]byte("late"), nil)
+					_ = c.GC.Close()
+				}
+			}
+			time.Sleep(time.Millisecond)
+			for _, cn := range extra {
+				if msg := cn.Verify(); msg != "" {
+					s.addFail("VERIF-KEY:fd-canary-after-stop " + msg)
+				}
+			}
+			s.AfterStopPokes += len(s.Conns)
 		}
 		for _, cn := range s.Canaries {
 			if msg := cn.Verify(); msg != "" {
